@@ -306,6 +306,11 @@ def run(tier):
     wake_up_rule(fx, ck, "R5.wake-up")
     cancel_once_rule(fx, ck)
 
+    # R8 (shared with C07 R6): the index a race settler carries ranges over the collection that sized input_order_ids - the losers it cancels are
+    # found by position, so an index over another collection cancels the winner and spares a loser
+    import slotindex
+    n8 = slotindex.rule(fx, ck, name="R8.cancel-index-domain")
+    ck.anchor(n8 >= 2, "settle-handler aggregates pairing an index with a shared state (found %d)" % n8)
     # R6 siblings
     import c19
     c19.sibling_vmresult_mappers(fx, ck, "R6.mapper-siblings")
